@@ -52,9 +52,20 @@ Corpus ==
     edge    |-> ("main" :> <<PrintS(Var("x")), Sym(1), PrintS(Var("x"))>>),
     \* a verbatim body that holds a comment and tag syntax: reproduced, at every template size
     verbc   |-> ("main" :> <<Sym(1), Verbatim(<<97, 123, 35, 32, 99, 32, 35, 125, 98>>), Sym(2), PrintS(Var("x")), Sym(3)>>),
+    \* comments between text and tags: a dash works on the text next to it, whatever follows that text
+    cmt1    |-> ("main" :> <<Sym(1), PrintS(Var("x")), Sym(2), Comment(<<32, 99, 32>>), Sym(3)>>),
+    cmt2    |-> ("main" :> <<Sym(1), Comment(<<>>), Sym(2), PrintS(Var("x")), Sym(3), Comment(<<32, 99, 32>>), Sym(4)>>),
+    cmt3    |-> ("main" :> <<Sym(1), If1(Var("x"), <<Sym(2), Comment(<<99>>), Sym(3)>>), Comment(<<99>>), Sym(4)>>),
+    \* no tag at all; names that differ in the case of their letters, alone in a print tag
+    textonly |-> ("main" :> <<Sym(1), Comment(<<32, 99, 32>>), Sym(2)>>),
+    textonly2 |-> ("main" :> <<Sym(1)>>),
+    caseids |-> ("main" :> <<Sym(1), PrintS(Var("ID")), Sym(2), PrintS(Var("id")), PrintS(Var("Class")), Sym(3), PrintS(Var("userName")), PrintS(Var("username")), PrintS(Var("A"))>>),
+    \* a child that overrides one block with nothing and one with a comment only
+    emptyblk |-> ("main" :> <<Extends(LS(NT.t1)), Block("bb", <<>>), Block("cc", <<Sym(1), PrintS(Var("x"))>>), Block("dd", <<Comment(<<32, 99, 32>>)>>)>>)
+                @@ ("t1" :> <<Sym(2), Block("bb", <<Sym(3)>>), Block("cc", <<Sym(4)>>), Block("dd", <<Sym(5)>>)>>),
     printnum |-> ("main" :> <<Sym(1), PrintS(LI(42)), Sym(2), PrintS(LI(7)), Sym(3), If1(LI(1), <<Sym(4)>>)>>)
   ]
-Ctx == ("x" :> VI(3)) @@ ("s" :> VS(<<97>>))
+Ctx == ("x" :> VI(3)) @@ ("s" :> VS(<<97>>)) @@ ("ID" :> VI(11)) @@ ("id" :> VI(12)) @@ ("Class" :> VI(13)) @@ ("userName" :> VI(14)) @@ ("username" :> VI(15)) @@ ("A" :> VI(16))
 
 \* ---- whitespace styles of the text pieces ----------------------------------------------
 \* a style maps symbol k to its text
